@@ -101,6 +101,9 @@ class TreeGen:
             if r.random() < 0.5:
                 self.kinds.add("breakif")
                 brk = (r.randint(0, len(body)), self.cond(vars_))
+                if r.random() < 0.3:
+                    self.kinds.add("breakif-public-condition")
+                    brk = (brk[0], "%s == %d" % (kname, r.randint(1, 2)))
             return ("while", self.cond(vars_), body, r.randint(1, 3), kname, brk)
         self.kinds.add("for")
         self.nk += 1
@@ -113,6 +116,9 @@ class TreeGen:
         if r.random() < 0.35:
             self.kinds.add("breakif-in-for")
             brk = (r.randint(0, len(body)), self.cond(vars_))
+            if r.random() < 0.3:
+                self.kinds.add("breakif-public-condition")
+                brk = (brk[0], "%s >= %d" % (iname, r.randint(0, 2)))
         start = r.choice([None, None, 0, 1, 2])
         if start is not None:
             self.kinds.add("range-with-start")
